@@ -88,7 +88,7 @@ impl Property for C11 {
     }
     fn assumptions(&self) -> Vec<String> {
         vec![
-            "the documented stack Tool{Base{OPW + limits}} is rebuilt by the harness; the answer of the robot with shape must equal the stack's answer filtered by the robot's own collides(), bit-equal and in order (that collides itself is right is decided by C10)".into(),
+            "the underlying stack is the robot's public `kinematics`; the answer of the robot with shape must equal that stack's answer filtered by the robot's own collides(), bit-equal and in order (that collides itself is right is decided by C10); the stack is compared with a hand-built Tool{Base{OPW + limits}} and with the model composition to 1e-9 (nesting order inside is free)".into(),
             "positioned_robot: six joint transforms equal the f32 cast of the stack's link poses; tool at the sixth; environment complete".into(),
         ]
     }
@@ -163,7 +163,10 @@ impl Property for C11 {
         let tcp = c.scene.base_iso().mul(&c.scene.robot.fk(&c.j)).mul(&c.tool_tf.iso());
         let na = to_na(&tcp);
         let prev = c.prev.resolve(Some(c.j));
-        let u = call_entry(&stack, entry, &na, &prev, c.j6).map_err(|m| viol!("no panic", "stack {}: {}", what, m))?;
+        // the underlying stack is the robot's own public `kinematics` (how base, tool and limits are nested inside it is not part of the
+        // statement); the hand-built Tool{Base{OPW + limits}} is compared with it to rounding below
+        let under = robot.kinematics.clone();
+        let u = call_entry(under.as_ref(), entry, &na, &prev, c.j6).map_err(|m| viol!("no panic", "stack {}: {}", what, m))?;
         let r = call_entry(&robot, entry, &na, &prev, c.j6).map_err(|m| viol!("no panic", "robot with shape {}: {}", what, m))?;
         // the same query put a second time to the same robot gives the same answer (no state carried between calls)
         let r_again = call_entry(&robot, entry, &na, &prev, c.j6).map_err(|m| viol!("no panic", "robot with shape {} (second call): {}", what, m))?;
@@ -189,20 +192,32 @@ impl Property for C11 {
         );
         // delegation of forward / link poses / limits / singularity
         let f_r = robot.forward(&c.j);
-        let f_s = stack.forward(&c.j);
+        let f_s = under.forward(&c.j);
         ensure!(f_r == f_s, "forward is that of the underlying stack", "{:?} vs {:?}", f_r, f_s);
         let l_r = robot.forward_with_joint_poses(&c.j);
-        let l_s = stack.forward_with_joint_poses(&c.j);
+        let l_s = under.forward_with_joint_poses(&c.j);
         ensure!(l_r == l_s, "link poses are those of the underlying stack", "{:?} vs {:?}", l_r, l_s);
+        // ... and that stack is base -> robot(limits) -> tool: equal to the hand-built one up to rounding
+        {
+            let size = 1.0 + c.scene.robot.reach() + norm(&c.tool_tf.t) + norm(&c.scene.base_iso().p);
+            let close = |a: &nalgebra::Isometry3<f64>, b: &nalgebra::Isometry3<f64>| (a.translation.vector - b.translation.vector).norm() <= 1e-9 * size && a.rotation.angle_to(&b.rotation) <= 1e-9;
+            let f_h = stack.forward(&c.j);
+            ensure!(close(&f_s, &f_h), "the underlying stack is base -> robot(limits) -> tool", "forward {:?} vs hand-built {:?}", f_s, f_h);
+            let l_h = stack.forward_with_joint_poses(&c.j);
+            for i in 0..6 {
+                ensure!(close(&l_s[i], &l_h[i]), "the underlying stack is base -> robot(limits) -> tool", "link {}: {:?} vs hand-built {:?}", i + 1, l_s[i], l_h[i]);
+            }
+        }
         // ... and the stack itself is base * robot * tool around the model
         let fm = from_na(&f_r).ok_or_else(|| viol!("finite", "{:?}", f_r))?;
         ensure!(dist(&fm.p, &tcp.p) <= 1e-9 * (1.0 + c.scene.robot.reach() + norm(&c.tool_tf.t) + norm(&c.scene.base_iso().p)) && rot_angle(&fm.r, &tcp.r) <= 1e-9, "the underlying stack is base -> robot(limits) -> tool", "dp={:e}", dist(&fm.p, &tcp.p));
-        let (cr, cs) = (robot.constraints(), stack.constraints());
+        let (cr, cs) = (robot.constraints(), under.constraints());
         match (cr, cs) {
             (Some(a), Some(b)) => ensure!(a.from == b.from && a.to == b.to && a.sorting_weight == b.sorting_weight && a.from == c.limits.from && a.to == c.limits.to, "limits are those of the underlying stack", "{:?} vs {:?}", a, b),
             _ => return Err(viol!("limits are those of the underlying stack", "missing limits")),
         }
-        ensure!(robot.kinematic_singularity(&c.j) == stack.kinematic_singularity(&c.j), "singularity reports are those of the underlying stack", "differs at {:?}", c.j);
+        ensure!(robot.kinematic_singularity(&c.j) == under.kinematic_singularity(&c.j), "singularity reports are those of the underlying stack", "differs at {:?}", c.j);
+        ensure!(under.kinematic_singularity(&c.j) == stack.kinematic_singularity(&c.j), "the underlying stack is base -> robot(limits) -> tool", "singularity report differs from the hand-built stack at {:?}", c.j);
         // positioned robot
         let pr = robot.positioned_robot(&c.j);
         ensure!(pr.joints.len() == 6, "positioned_robot has six joints", "{}", pr.joints.len());
